@@ -171,18 +171,12 @@ def error_norm(ctx):
     """the real compute_error on symbolic tensors equals max(sqrt(mean(((y1-y2)/max(atol + rtol*max(|y1|,|y2|), eps))^2)), eps)"""
     from torchsde._core import adaptive_stepping
     from .. import symtorch
-    got = {}
-
-    @symtorch.handler('aten._local_scalar_dense.default')
-    def _item(a):
-        got['node'] = a.reshape(-1)[0]
-        return None
     n_ok = 0
     for (rtol, atol, vals1, vals2) in [(0.1, 0.01, [[0.5, -0.2]], [[0.45, -0.25]]), (0.0, 0.001, [[0.5], [0.1]], [[0.4], [0.3]]),
                                        (0.5, 0.0, [[1e-9, 2.0]], [[2e-9, -1.0]])]:
         y1 = sym_tensor(vals1, 'p'); y2 = sym_tensor(vals2, 'q')
         val = adaptive_stepping.compute_error(y1, y2, rtol, atol)
-        node = got['node']
+        node = symtorch.CONCRETIZED[-1]
         env = env_of(y1, y2)
         if abs(dag.to_float(node, env) - val) > 1e-9 * max(1, abs(val)):
             raise Inconclusive('compute_error symbolic value does not match kernel value')
@@ -212,7 +206,6 @@ def error_norm(ctx):
             ctx.inconc('compute_error formula', r)
     if n_ok == 3:
         ctx.ok('compute_error == mixed rtol/atol RMS norm (3 tolerance regimes, symbolic y1,y2)')
-    symtorch.HANDLERS.pop('aten._local_scalar_dense.default', None)
 
 
 def run(ctx):
